@@ -178,6 +178,10 @@ func instrument(f, rel string, src []byte) ([]byte, []string, int, error) {
 			site := fmt.Sprintf("%s:%d", rel, p.Line)
 			edits = append(edits, edit{off: p.Offset, text: fmt.Sprintf("simrt.Yield(%q); ", site)})
 			sites = append(sites, site)
+			// a plain blocking receive: the goroutine parks again as soon as it wakes up
+			if isRecvStmt(s) {
+				edits = append(edits, edit{off: fset.Position(s.End()).Offset, text: fmt.Sprintf("; simrt.Resume(%q)", site+":recv")})
+			}
 		}
 	}
 	ast.Inspect(af, func(n ast.Node) bool {
@@ -196,7 +200,18 @@ func instrument(f, rel string, src []byte) ([]byte, []string, int, error) {
 		case *ast.CaseClause:
 			addYields(x.Body)
 		case *ast.CommClause:
+			if x.Comm != nil {
+				// the goroutine was (possibly) blocked in the select: it parks as soon as it wakes up
+				p := fset.Position(x.Colon)
+				edits = append(edits, edit{off: p.Offset + 1, text: fmt.Sprintf(" simrt.Resume(%q);", fmt.Sprintf("%s:%d:comm", rel, p.Line))})
+			}
 			addYields(x.Body)
+		case *ast.GoStmt:
+			if fl, ok := x.Call.Fun.(*ast.FuncLit); ok {
+				// a new goroutine does nothing before the driver lets it
+				p := fset.Position(fl.Body.Lbrace)
+				edits = append(edits, edit{off: p.Offset + 1, text: fmt.Sprintf(" simrt.Resume(%q);", fmt.Sprintf("%s:%d:go", rel, p.Line))})
+			}
 		case *ast.SelectorExpr:
 			trySubst(x)
 		}
@@ -252,4 +267,18 @@ func goListDir(repo, pkg string) string {
 		return ""
 	}
 	return strings.TrimSpace(string(out))
+}
+
+func isRecvStmt(s ast.Stmt) bool {
+	isRecv := func(e ast.Expr) bool {
+		u, ok := e.(*ast.UnaryExpr)
+		return ok && u.Op == token.ARROW
+	}
+	switch x := s.(type) {
+	case *ast.ExprStmt:
+		return isRecv(x.X)
+	case *ast.AssignStmt:
+		return len(x.Rhs) == 1 && isRecv(x.Rhs[0])
+	}
+	return false
 }
